@@ -58,13 +58,22 @@ def verify(name, pid, mutdir):
         sh(f'git -C {REPO} worktree remove --force {wt}')
 
 
-def run(name, pids):
+def run(name, pids, scratch=False):
+    """scratch=True: apply the change to a scratch worktree of /repo and point the checks at it with VERIF_REPO (used while a long
+    background run is reading /repo itself); otherwise apply it to /repo and undo it straight afterwards"""
     d = os.path.join(ROOT, 'seeded', name)
     meta = json.load(open(os.path.join(d, 'meta.json')))
     pids = pids or [meta['property']]
-    rc, out = sh(f'git -C {REPO} status --porcelain --untracked-files=no')
-    assert out.strip() == '', '/repo has uncommitted changes: ' + out
-    rc, out = sh(f'git -C {REPO} apply {os.path.join(d, "patch.diff")}')
+    target = REPO
+    if scratch:
+        target = '/tmp/vrepo'
+        sh(f'git -C {REPO} worktree remove --force {target}')
+        rc, out = sh(f'git -C {REPO} worktree add -q --detach {target} HEAD')
+        assert rc == 0, out
+        ENV['VERIF_REPO'] = target
+    rc, out = sh(f'git -C {target} status --porcelain --untracked-files=no')
+    assert out.strip() == '', target + ' has uncommitted changes: ' + out
+    rc, out = sh(f'git -C {target} apply {os.path.join(d, "patch.diff")}')
     assert rc == 0, out
     try:
         for pid in pids:
@@ -80,7 +89,10 @@ def run(name, pids):
             for x in detail:
                 print('    ' + x[:260])
     finally:
-        rc, out = sh(f'git -C {REPO} checkout -- .')
+        rc, out = sh(f'git -C {target} checkout -- .')
+        if scratch:
+            sh(f'git -C {REPO} worktree remove --force {target}')
+            ENV.pop('VERIF_REPO', None)
         # replays produced by the run stay out of the repository (.gitignore); evidence of the unchanged tree is regenerated below by the caller
     json.dump(meta, open(os.path.join(d, 'meta.json'), 'w'), indent=1)
 
@@ -88,4 +100,5 @@ def run(name, pids):
 if __name__ == '__main__':
     if sys.argv[1] == 'verify':
         sys.exit(0 if verify(sys.argv[2], sys.argv[3], sys.argv[4]) else 1)
-    run(sys.argv[2], sys.argv[3:])
+    args = [a for a in sys.argv[2:] if a != '--scratch']
+    run(args[0], args[1:], scratch='--scratch' in sys.argv)
